@@ -20,7 +20,7 @@
     [C20_trailing_blank_regression]) and names holding a double quote completed
     inside double quotes (written there as backslash + quote). *)
 From Cicada Require Import Base.Chars Base.Tag Gen.EscapeClass Model.Tokenizer Model.Redirect Model.Cmds Model.Complete
-  Proofs.TokenizerProofs Proofs.TokenizerEscProofs Proofs.CompleteProofs Proofs.WordStartProofs Proofs.CandidatesProofs.
+  Proofs.TokenizerProofs Proofs.TokenizerEscProofs Proofs.CompleteProofs Proofs.WordStartProofs Proofs.CandidatesProofs Proofs.DispatchProofs.
 From Coq Require Import Sorting.Permutation.
 Local Open Scope N_scope.
 
@@ -137,6 +137,23 @@ Theorem C20_link_dir_offered : forall fs getenv word for_dir sep pfx entries e,
               c = comp_of [] sep (is_env_prefix word) (fst e, true).
 Proof. exact dir_entry_offered. Qed.
 
+(** directories only after cd. The completer cascade of CicadaCompleter::complete is in the
+    model with its regexes GENERATED from src/completers/mod.rs. A line made of blanks, cd, one
+    or more blanks and then ANYTHING -- in particular one word whose blanks are escaped or sit
+    inside an open quote, which is one word for escaped_word_start -- is handled by the cd
+    completer unless a completer tested before it (dots, ssh, make, bin, env) claims the line,
+    and every candidate TAB then offers is a directory (through symbolic links). *)
+Theorem C20_cd_context : forall fs getenv dots n m rest,
+  let line := spaces n ++ [99; 100] ++ c_space :: spaces m ++ rest in
+  dots line = false -> for_ssh line = false -> for_make line = false -> for_bin line = false -> for_env line = false ->
+  dispatch (dots line) line = DCd /\ all_dirs (tab_line fs getenv dots line).
+Proof. exact cd_context. Qed.
+
+(** the regex of for_cd (generated) is a prefix test: whatever follows cd and a blank *)
+Theorem C20_for_cd_prefix : forall n m rest,
+  for_cd (spaces n ++ [99; 100] ++ c_space :: spaces m ++ rest) = true.
+Proof. exact for_cd_prefix. Qed.
+
 Check C20_partial : forall expand q cmd name d,
   honours_guards expand -> cmd_word cmd = true -> valid_filename name = true ->
   Known_C20 q name d = false ->
@@ -163,3 +180,5 @@ Print Assumptions C20_candidates.
 Print Assumptions C20_parse_dq_escaped.
 Print Assumptions C20_trailing_blank_regression.
 Print Assumptions C20_link_dir_offered.
+Print Assumptions C20_cd_context.
+Print Assumptions C20_for_cd_prefix.
